@@ -66,6 +66,9 @@ class Universe:
                 "x>=s3": claripy.SGE(x, 3),
                 "x>s2": claripy.SGT(x, 2),
                 "x<=s-3": claripy.SLE(x, 5),
+                # comparisons already in the shape Z3's simplifier produces (simplify() rewrites nothing)
+                "1<=sx": claripy.SLE(claripy.BVV(1, W), x),
+                "x<=u5": claripy.ULE(x, 5),
             }
             self.E = {"x": x, "y": y, "x+y": x + y, "x-y": x - y}
             self.X = {"none": (), "x==6": (x == 6,), "y<u2": (claripy.ULT(y, 2),), "y>u6": (claripy.UGT(y, 6),)}
